@@ -2013,6 +2013,23 @@ class ReferenceManager:
             if all(ref is not r for r in refs):
                 refs.append(ref)
 
+    def unregister_ref(self, ref):
+        """Stop tracking a reference deleted outside del_ref"""
+        val = ref.interface
+        if isinstance(val, Interface):
+            return
+        refs = self._valid_to_refs.get(id(val))
+        if refs and any(ref is r for r in refs):
+            refs[:] = [r for r in refs if r is not ref]
+            if not refs:
+                del self._valid_to_refs[id(val)]
+                spec = self._manager.get_spec_from_value(
+                    io_group=self._model.interface,
+                    value=val
+                )
+                if spec:
+                    self._manager.del_spec(spec)
+
     def del_ref(self, impl, name):
 
         refdict = impl.own_refs
